@@ -36,7 +36,8 @@ EMITTING = [s.name for s in STEPS if (
     "power_on:dynamic", "tool_change:manual", "tool_change:automatic",
     "set_bed_temperature", "set_hotend_temperature", "set_chamber_temperature",
     "halt:wait-for-bed(S)", "halt:wait-for-bed(R)", "halt:wait-for-hotend(S)",
-    "halt:wait-for-hotend(R)", "halt:wait-for-chamber(S)", "halt:wait-for-chamber(R)")]
+    "halt:wait-for-hotend(R)", "halt:wait-for-chamber(S)", "halt:wait-for-chamber(R)",
+    "halt:wait-for-bed(s)", "halt:wait-for-hotend(r)")]
 
 TEMP_CODES = {"M140": "bed", "M190": "bed", "M104": "hotend", "M109": "hotend",
               "M141": "chamber", "M191": "chamber"}
